@@ -6,6 +6,8 @@ V = os.path.dirname(os.path.dirname(os.path.abspath(__file__)))
 TECH = "deterministic simulation with fault injection: real writer code run against a simulated kernel / target / clock / destination behind interposed libc symbols; seeded scenario search, oracle on each run, minimised replay file"
 
 CLAIMED = {
+ "C02": ("exploration", "3 C02", "Seeded search over hostile targets: crash-context and live-thread registers at boundary addresses (0, 1, top of the address space, last/first byte around a mapping, misaligned, vsyscall page), corrupted program headers / dynamic section / r_debug / link_map list (cyclic, dangling, names running off a mapping, invalid UTF-8), boundary auxv values and truncated auxv files, arbitrary thread-name bytes, hostile mapping names (multi-byte characters around .so. version components, /SYSV*, /dev/*, spaces, invalid UTF-8), odd status lines, hostile caller configuration, the process being killed at an arbitrary call, and realistic as well as exotic errno / short-transfer faults on every kernel call. Oracle: each request returns Ok or Err (no panic; a worker abort or wall-clock watchdog hit is confirmed by a single-index re-run), call/time budgets not exhausted (<= 2,000,000 simulated calls, <= 60 simulated seconds), no open/mmap of a path that is the name of a target mapping under /dev.", "Built with overflow checks and debug assertions on (as `cargo test` does), so arithmetic overflow is a panic. A tracee stuck in uninterruptible sleep (real waitpid would block) is not modelled; fabricated wait statuses are not generated."),
+ "C03": ("fault_enumeration", "3 C03", "Base scenarios (1..16 threads, busy and parked, foreign tracer, stop succeeding / staggered / timing out / failing, 0..5 handler-type signals - standard and real-time, thread- and process-directed - sent at chosen phases: before the stop, while polling, during enumeration, at attach, between attach and wait, while suspended, while capturing, while writing, between detaches, before SIGCONT; thread exits; destination faults) plus a fault sweep over the recorded run: a state-neutral errno at each kernel call in turn (open/read/opendir/readdir/statx/stat/readlink/mmap/process_vm_readv/attach/GETREGSET/PEEKUSER, EINTR x1..3 on waitpid, EPERM on the stop), SIGKILL of the target at each ptrace/wait/read/destination call, a signal arriving at each ptrace-phase call, and error / panic / short write / EINTR at each destination call (48 sampled sweep runs per scenario in quick, 400 in thorough). Oracle after the request returned or unwound and the world ran fault-free for 200 steps: no live thread attached, in ptrace-stop or stopped, no group stop in force, no writer SIGSTOP pending, every sent signal delivered exactly once to the right live thread, nothing fabricated.", "Relative to the ptrace/signal/group-stop model of the simulated kernel; failures that imply a state change (ESRCH on cont/detach) are produced by really killing the target, never as a bare errno."),
  "C08": ("exploration", "3 C08", "1..12 synthetic ELF images (with/without GNU note, note only in a section, section table not mapped so that the id is only reachable from the file, with/without DT_SONAME, all-zero id) mapped as three contiguous lines each, at zero or non-zero file offset (archive case), present / deleted on disk, names with spaces, non-ASCII and .so.N suffixes, a non-ELF file mapping, a library below the executable (entry-point module not lowest), caller-supplied mappings containing / partially overlapping / disjoint. Oracle = module-list model built from the world with an independent ELF reader (/verif/sim/src/elfref.rs).", "Grouping = maximal runs of contiguous same-name lines (reserved-gap merging, C13's subject, is not generated); images whose memory copy and file disagree about the id are not generated; extra modules that really hold an ELF image (vDSO) are allowed."),
  "C14": ("exploration", "3 C14", "I/O-facing part of the statement: ELF images (well-formed variants, structure-aware corruptions of every ELF/program/section/note/dynamic header field with boundary values, random and truncated byte strings) are delivered through both seams - target memory via the process reader (with EIO / EFAULT / short reads injected at a chosen read) and the file via open + mmap (missing file, mmap failure, EMFILE). Oracle: no panic, no budget exhaustion; on well-formed images build id and SONAME equal the independent reader's and memory/file answers agree.", "The first two clauses have no schedule or fault in them; for those the simulator is the delivery vehicle and the strength is that of seeded generation against a reference reader. Installed ELF files are not enumerated; 32-bit images are not generated."),
  "C18": ("exploration", "3 C18", "Targets with arbitrary cmdline/environ bytes (empty, unterminated, 100 KiB), extra auxv keys, 0..40 descriptors of every kind incl. non-UTF-8 and deleted paths and one vanishing mid-listing, shared and odd-permission mappings, cpuinfo variants (1..255 processors, field order, vendor lengths), linker lists of 0..12 objects reachable through the kernel's auxv, through caller-supplied values, through a mix, and through caller-supplied values that lead to a different list; short reads. Oracle compares each stream with what the simulated kernel holds while the target is stopped.", "cpuinfo text is rendered from the generator's machine description (tag cpu:...), which is the oracle's ground truth for family/model/stepping/vendor/count."),
